@@ -148,6 +148,17 @@ def run_design(design, steps, out, label="scattered"):
                                               "detail": {"design": design, "steps": steps[:n + 1], "step": n, "output": name,
                                                          "simulated": got, "documented": exp}})
                     return False
+            # the split signals themselves, read in their own shape (signed ones must be normalised)
+            from ..common import norm as _norm
+            for k, sg in enumerate(bd.split_sigs):
+                sp = design["splits"][k]
+                got = ctx.get(sg)
+                exp = _norm(ref.split[k], sp["w"], bool(sp.get("signed")))
+                if got != exp:
+                    out["violations"].append({"mechanism": f"{label}-value-mismatch:split-signal-read",
+                                              "detail": {"design": design, "steps": steps[:n + 1], "step": n, "split": k,
+                                                         "simulated": got, "documented": exp}})
+                    return False
             return True
         if not compare(-1):
             return
